@@ -387,7 +387,7 @@ func init() {
 		}
 		// C10 / C04: framing and non-FAIM characters in every element of every tag, inside a whole message:
 		// whatever validation still accepts must be written and read back
-		hostile := []string{" ", "  ", "*", "{", "}", "\n", "A*B", "A{1510}B", "A\nB", "A\r\nB", "\xc3\xa9", "A\tB"}
+		hostile := []string{" ", "  ", "*", "{", "}", "\n", "A*B", "A{1510}B", "A\nB", "A\r\nB", "\xc3\xa9", "A\tB", "%", "5%d", "100%", "%s%v", "A%%B"}
 		snames := sortedSampleNames(samples)
 		for _, tt := range tagTypes {
 			bl := bases[tt.Name]
